@@ -809,7 +809,12 @@ func (t *sourceTracer) TransitionEnd(tx *am.Transition) {
 	}
 	if s.syncShallowClocks {
 		mTime = am.NewTime(mTime, mTime.ActiveStates(nil))
-		trackedTSum = mTime.Sum(nil)
+		// count the tracked states only (mTime is source-bound with a schema)
+		if s.syncSchema {
+			trackedTSum = mTime.Filter(t.trackedStateIdxs).Sum(nil)
+		} else {
+			trackedTSum = mTime.Sum(nil)
+		}
 	}
 
 	// update
